@@ -226,6 +226,8 @@ func (r *Run) writeEvidence(prop string, keys []string, reports []*funcReport, r
 			"slowest":                slow,
 			"samples":                samples,
 			"trusted_external_contracts": trusted,
+			"functions_not_under_contract": r.W.notUnderContract(),
+			"global_write_scan_functions": r.W.scanned,
 			"engine_error":           engineErr,
 			"explanation":            "Every obligation is generated on this run from the go/ssa of /repo's working tree and the //@ contracts in /repo/verif_contracts*.go; 'discharged' counts obligations for which a solver returned the expected answer (unsat; sat for vacuity guards).",
 		},
@@ -242,4 +244,26 @@ func seedFromEnv() int {
 	var s int
 	fmt.Sscanf(os.Getenv("VERIF_SEED"), "%d", &s)
 	return s
+}
+
+// notUnderContract lists the package's own functions (not the generated spec functions) that have no
+// contract: nothing is claimed about them, except through inlining into functions that have one.
+func (w *World) notUnderContract() []string {
+	var out []string
+	specFiles := map[string]bool{}
+	for k, fn := range w.AllFns {
+		if fn.Pkg != w.SPkg || strings.HasPrefix(fn.Name(), "vc_") || strings.Contains(k, ".") && !strings.HasPrefix(k, "(") {
+			continue
+		}
+		pos := w.Fset.Position(fn.Pos())
+		if strings.Contains(pos.Filename, "verif_") || strings.Contains(pos.Filename, "zz_vc_") || strings.HasSuffix(pos.Filename, "_test.go") {
+			specFiles[pos.Filename] = true
+			continue
+		}
+		if _, ok := w.Funcs[k]; !ok {
+			out = append(out, k)
+		}
+	}
+	sort.Strings(out)
+	return out
 }
